@@ -116,7 +116,8 @@ def stub_binds(sy, lep=None, itp=None):
                 binds.append((m, name, lep))
             elif name == "interpolator" and callable(val) and getattr(val, "__module__", "").endswith("heavy.n3lo"):
                 binds.append((m, name, itp))
-        if not sy.is_numeric and "np" in d and d["np"] is np and (m.__name__.endswith("partonic_channel")):
+        # (the massive modules guard LeProHQ's answers with np.isnan: the shim reads that on symbols)
+        if not sy.is_numeric and "np" in d and d["np"] is np and (m.__name__.endswith("partonic_channel") or ".coefficient_functions.heavy." in m.__name__):
             binds += np_shim_for(m)
     return binds
 
